@@ -5,7 +5,7 @@
 //@ props: C10 C08
 //@ expect: postcondition>=4 canary=4 loop_contract>=3
 #include "_unit.h"
-/* every string of 0..2^20-1 characters, every delimiter */
+/* every string of 0..2^16-1 characters, every delimiter */
 void harness(void)
 {
     xv_ghost_havoc(); xc_ghost_havoc();
